@@ -356,7 +356,8 @@ def run(tier, seed):
                 continue
             classes[oc] += 1
             rep.disagree(describe(sid, ty, lf), oc, {"source": lm.function("f", stmts[sid], ty, True), "typing": ty,
-                                                     "subject": subjects[lf["si"] - 1], "guards": lf["gs"], "want": want, "got": got})
+                                                     "subject": subjects[lf["si"] - 1], "guards": lf["gs"], "want": want, "got": got,
+                                                     "aliases": {n: sorted(v) for n, v in aliases.items()}})
 
     # ---- binding demonstration: corrupted expectations must be rejected by the same comparison
     st = {"corrupted": 0, "rejected": 0}
@@ -407,3 +408,33 @@ def run(tier, seed):
                                      "custom Sequence / Mapping subjects are consistent (len, indexing and iteration agree)"],
                         violations=rep.n_violations())
     return rc
+
+
+def replay(path, seed):
+    """Re-build and re-run the cases of a replay file written by Reporter (exit 1 while they still differ)."""
+    rec = json.load(open(path))
+    cases = [c for c in rec.get("cases", []) if isinstance(c, dict) and "source" in c]
+    if not cases:
+        core.die("no replayable cases in %s" % path)
+    bad = 0
+    specs = []
+    for i, c in enumerate(cases):
+        src = re.sub(r"^def \w+\(", "def r%d(" % i, c["source"])
+        specs.append(core.BuildSpec("c31r%d" % i, lm.PYX_HEADER + src, kind="pyx", options={"language_level": 3}))
+    builds = core.build_many(specs, workdir=core.subdir("c31replay"), jobs=min(8, core.NCPU))
+    for i, (c, b) in enumerate(zip(cases, builds)):
+        if not b.ok:
+            bad = 1
+            print("case %d: build fails at stage %s: %s" % (i, b.stage, (b.errors.strip().splitlines() or ["?"])[-1][:300]))
+            continue
+        if "subject" not in c:
+            print("case %d: builds now" % i)
+            continue
+        d = os.path.dirname(b.so)
+        lm.write_runtime(d)
+        got = lm.run_items(d, "C", b.so, [c["subject"]], [["r%d" % i, 1, c["guards"]]], "r")[0]
+        oc = analyse(c["want"], got, {n: set(v) for n, v in (c.get("aliases") or {}).items()})
+        print("case %d: subject %s guards %s: %s\n  expected %s\n  compiled %s" % (i, c["subject"], c["guards"], oc or "agrees", obs(c["want"]),
+                                                                                 got if isinstance(got, str) else obs(got)))
+        bad = bad or (1 if oc else 0)
+    return bad
